@@ -76,7 +76,16 @@ def source_digest(files):
     return out
 
 
+_CURRENT = []  # result dicts created during the case being evaluated (first one = the case's own)
+
+
 def new_result():
+    r = _new_result()
+    _CURRENT.append(r)
+    return r
+
+
+def _new_result():
     return {
         "viol": [],  # list of {key, what, detail}
         "states": 0,
@@ -150,6 +159,7 @@ def _eval_wrapper(arg):
 
     mod = importlib.import_module(modname)
     t0 = time.time()
+    del _CURRENT[:]
     signal.setitimer(signal.ITIMER_REAL, timeout)
     try:
         import contextlib
@@ -159,16 +169,22 @@ def _eval_wrapper(arg):
             res = mod.eval_case(kind, data)
         status = "ok"
     except CaseTimeout:
-        res = new_result()
-        status = "case-timeout"
+        # the budget of the whole case is used up: violations already established in it are kept (and reported), the
+        # case counts as capped; without any it is a harness budget problem (exit 2)
+        partial = _CURRENT[0] if _CURRENT and _CURRENT[0].get("viol") else None
+        res = partial if partial is not None else _new_result()
+        status = "ok" if partial is not None else "case-timeout"
+        if partial is not None:
+            res["capped"] = True
+            res["capped_note"] = "case time budget used up after violations had been established; the rest of the case was not evaluated"
     except MemoryError:
-        res = new_result()
+        res = _new_result()
         status = "case-memory"
     except HarnessError:
-        res = new_result()
+        res = _new_result()
         status = "harness:" + traceback.format_exc()
     except Exception:
-        res = new_result()
+        res = _new_result()
         status = "harness:" + traceback.format_exc()
     finally:
         signal.setitimer(signal.ITIMER_REAL, 0)
